@@ -707,6 +707,24 @@ static ob::PlannerPtr makePlanner(const std::string &n, const ob::SpaceInformati
     return nullptr;
 }
 
+// a user-defined state sampler on a lattice: every coordinate of a RealVector sample is rounded to a multiple of 1/n
+// (exact distance and cost ties become systematic, as in a discretised space)
+struct GridSampler : ob::StateSampler
+{
+    ob::StateSamplerPtr base;
+    unsigned n, dim;
+    GridSampler(const ob::StateSpace *sp, ob::StateSamplerPtr b, unsigned n, unsigned dim) : ob::StateSampler(sp), base(std::move(b)), n(n), dim(dim) {}
+    void snap(ob::State *s)
+    {
+        double *v = s->as<ob::RealVectorStateSpace::StateType>()->values;
+        for (unsigned i = 0; i < dim; ++i)
+            v[i] = std::round(v[i] * n) / n;
+    }
+    void sampleUniform(ob::State *s) override { base->sampleUniform(s); snap(s); }
+    void sampleUniformNear(ob::State *s, const ob::State *near, double d) override { base->sampleUniformNear(s, near, d); snap(s); }
+    void sampleGaussian(ob::State *s, const ob::State *mean, double sd) override { base->sampleGaussian(s, mean, sd); snap(s); }
+};
+
 // the public "load a roadmap" constructors
 static ob::PlannerPtr makePlannerFromData(const std::string &n, const ob::PlannerData &pd)
 {
@@ -898,6 +916,18 @@ static bool doRun(const std::vector<std::string> &t)
     if (dubins && d != 3)
         return false;
     auto si = dubins ? makeDubins(envBoxes((unsigned)*env, 2)) : makeSpace(d, 0.0, 1.0, 0.01, 1, envBoxes((unsigned)*env, d), -1);
+    // pseudo-parameter `grid=<n>` (RealVector runs only): samples are snapped to the lattice (1/n)Z^d
+    for (auto &kv : cfg)
+        if (kv.first == "grid")
+        {
+            auto n = vp::parseNat(kv.second);
+            if (!n || *n == 0 || dubins)
+                return false;
+            unsigned nn = (unsigned)*n;
+            si->getStateSpace()->setStateSamplerAllocator([nn, d](const ob::StateSpace *sp) -> ob::StateSamplerPtr {
+                return std::make_shared<GridSampler>(sp, sp->allocDefaultStateSampler(), nn, d);
+            });
+        }
     Query q = envQuery((unsigned)*env, d);
     // the states of the query (kept alive for the whole run: the Monitor compares path end points with them)
     std::vector<ob::ScopedState<>> keep;
@@ -1002,6 +1032,8 @@ static bool doRun(const std::vector<std::string> &t)
     auto applyCfg = [&](const ob::PlannerPtr &pl) {
         for (auto &kv : cfg)
         {
+            if (kv.first == "grid")
+                continue;
             bool ok = pl->params().hasParam(kv.first) && pl->params().setParam(kv.first, kv.second);
             std::cout << "cfg " << clean(kv.first) << "=" << clean(kv.second) << " ok=" << (ok ? 1 : 0) << std::endl;
         }
